@@ -21,6 +21,15 @@ CHECKS = {
  "C03": dict(level="exploration", tech="exhaustive enumeration of the pair conflict space + property-based sampling of triples; rule oracle from the docs + metamorphic relation over all sync-order permutations",
    text="All pairs of single edits x value relation x timestamp relation x base state x causal follow-up are enumerated exhaustively and run in both sync orders; 2-3 replica scenarios with longer edit lists are sampled and run in all permutations. Oracle: documented winner where the rules determine one, otherwise membership + agreement; outcome equal across all sync orders; chain replay.",
    note="Rule oracle deliberately silent on ties with different values and on repeated updates of one property on one replica (not determined by the docs).", ref="4/C03"),
+ "C04": dict(level="fault_enumeration", tech="fault injection enumerated over every storage call and server request of a sync, on generated lead-up histories (proptest); differential against the fault-free run + replica invariant",
+   text="For each generated scenario the interrupted replica's sync is first run in counting mode, then re-run once per storage-call index x {error, process stop} and per server-request index x {error before effect, effect then lost reply}, plus generated sequences of consecutive faults, on in-memory and (subset) SQLite with reopen. Oracle: replica invariant right after the fault; retry Ok; converged state AND chain operation sequence identical to the fault-free run; nothing sent twice. Exhaustive over injection points per scenario, sampled over scenarios.",
+   note="Process stop = the sync future is dropped at a storage call (uncommitted transaction abandoned); server = harness ModelServer.", ref="4/C04"),
+ "C14": dict(level="exploration", tech="property-based testing: exact wire-format validator (independent JSON + RFC 3339 parser) over transmitted versions; grammar-based generation of foreign documents with reference replay",
+   text="Outbound: every version the harness server receives is checked field by field (only Create/Delete/Update, exact field sets, string-or-null values, RFC 3339 Z timestamps equal to the committed instant) and the concatenation must equal the committed operations minus undo points. Inbound: documents from a grammar (permuted fields, whitespace, \\uXXXX escapes, 0-9 fractional digits) must be applied as the reference model says.",
+   note="Plaintext observed at the Server trait boundary; inbound documents use the 'operations' wrapper; malformed documents out of scope.", ref="4/C14"),
+ "C20": dict(level="exploration", tech="property-based testing over a full status x modified grid with generated concurrent edits and sync orders; exact-set oracle + chain replay",
+   text="Every case holds the complete grid (6 statuses x 21 modified values incl. boundaries, out-of-range, non-numeric); expire_tasks must remove exactly the deleted tasks with a readable modification time older than 180 days, record ordinary Delete operations with the full old task, and after synchronization in either order with concurrent edits (update, re-open, outright delete) elsewhere the purged tasks are gone on every replica and everything else is untouched.",
+   note="Wall clock read by expire_tasks: boundary cells keep >= 60 s distance; odd integer syntaxes are don't-care.", ref="4/C20"),
  "C12": dict(level="exploration", tech="property-based testing: generated histories with Unicode content and urgency scripts; independent snapshot decoder vs. chain replay at the snapshot's version",
    text="Every snapshot the harness server receives is decoded independently (zlib+JSON) and compared with the reference replay of the chain up to exactly its version; snapshots only directly after an accepted version whose urgency met the threshold; fresh replicas from snapshot + later versions equal the full replay; non-empty replicas never take over an offered snapshot.",
    note="Plaintext observed at the Server trait boundary; bounded histories.", ref="4/C12"),
